@@ -24,13 +24,13 @@ EXTENDS HeimdallOps, Json, IOUtils
 Trace == ndJsonDeserialize(IOEnv.VERIF_TRACE)
 OutFile == IOEnv.VERIF_OUT
 
-VARIABLES l, run, kind, W, A, St, bad, nbad, nreq, nontrivial, nack, nfail
+VARIABLES l, run, kind, W, A, St, bad, nbad, nreq, nontrivial, nack, nfail, ntorn
 
-tvars == <<l, run, kind, W, A, St, bad, nbad, nreq, nontrivial, nack, nfail>>
+tvars == <<l, run, kind, W, A, St, bad, nbad, nreq, nontrivial, nack, nfail, ntorn>>
 
 Init == /\ l = 1 /\ run = "" /\ kind = [x \in {} |-> ""]
         /\ W = [x \in {} |-> <<>>] /\ A = [x \in {} |-> <<>>] /\ St = [x \in {} |-> {}]
-        /\ bad = {} /\ nbad = 0 /\ nreq = 0 /\ nontrivial = 0 /\ nack = 0 /\ nfail = 0
+        /\ bad = {} /\ nbad = 0 /\ nreq = 0 /\ nontrivial = 0 /\ nack = 0 /\ nfail = 0 /\ ntorn = 0
 
 Names(e) == {e.srcs[i].name : i \in 1..Len(e.srcs)}
 
@@ -55,27 +55,32 @@ Next ==
             /\ W' = [s \in Names(e) |-> <<>>]
             /\ A' = [s \in Names(e) |-> <<Ack0>>]
             /\ St' = [s \in Names(e) |-> {}]
-            /\ UNCHANGED <<bad, nbad, nreq, nontrivial, nack, nfail>>
+            /\ UNCHANGED <<bad, nbad, nreq, nontrivial, nack, nfail, ntorn>>
        [] e.ev = "write" /\ Known(e) ->
             /\ W' = [W EXCEPT ![e.src] = Append(@, [c |-> e.c, rules |-> e.rules, seq |-> e.seq, mode |-> e.mode])]
             /\ IF e.idx = Len(W[e.src]) + 1 THEN UNCHANGED <<bad, nbad>>
                ELSE Reject(e, e.src, {"e2e-trace-write-out-of-order"}, Facts(e, [tag |-> ""]))
-            /\ UNCHANGED <<run, kind, A, St, nreq, nontrivial, nack, nfail>>
+            /\ UNCHANGED <<run, kind, A, St, nreq, nontrivial, nack, nfail, ntorn>>
        [] e.ev = "ack" /\ Known(e) ->
             LET a == [idx |-> e.idx, tag |-> e.tag, seq |-> e.seq]
                 reasons == AckReasons(e.src, W[e.src], A[e.src], a)
             IN /\ A' = [A EXCEPT ![e.src] = Append(@, AckFloor(e.src, W[e.src], A[e.src], a))]
                /\ IF reasons = {} THEN UNCHANGED <<bad, nbad>> ELSE Reject(e, e.src, reasons, Facts(e, [tag |-> e.tag]))
                /\ nack' = nack + 1
-               /\ UNCHANGED <<run, kind, W, St, nreq, nontrivial, nfail>>
+               /\ UNCHANGED <<run, kind, W, St, nreq, nontrivial, nfail, ntorn>>
        [] e.ev = "req" /\ Known(e) ->
             LET q == [seg |-> e.path, start |-> e.start, end |-> e.end, tag |-> e.tag]
                 reasons == ReqReasons(e.src, W[e.src], A[e.src], St[e.src], q)
-                poss == Poss(W[e.src], FloorOf(A[e.src], q.start), WrittenBefore(W[e.src], q.end))
+                fl == FloorOf(A[e.src], q.start)
+                hi == WrittenBefore(W[e.src], q.end)
+                poss == Poss(W[e.src], fl, hi)
             IN /\ St' = [St EXCEPT ![e.src] = StairAfter(e.src, W[e.src], A[e.src], St[e.src], q)]
                /\ IF reasons = {} THEN UNCHANGED <<bad, nbad>> ELSE Reject(e, e.src, reasons, Facts(e, [tag |-> e.tag]))
                /\ nreq' = nreq + 1
                /\ nontrivial' = IF Cardinality(poss) > 1 THEN nontrivial + 1 ELSE nontrivial
+               \* responses that only a torn read of a file rewritten in place explains
+               /\ ntorn' = IF reasons = {} /\ ~\E a \in {fl.act} \cup {Eff(W[e.src][j]) : j \in (fl.idx + 1)..hi} : q.tag \in Resp(e.src, a, q.seg)
+                           THEN ntorn + 1 ELSE ntorn
                /\ UNCHANGED <<run, kind, W, A, nack, nfail>>
        [] e.ev = "end" ->
             LET open == {s \in DOMAIN W : EndReasons(W[s], A[s]) # {}} IN
@@ -84,21 +89,21 @@ Next ==
                                          id |-> e.id, facts |-> [kind |-> kind[s], lastc |-> LastWrite(s).c,
                                                                  lastmode |-> LastWrite(s).mode, tag |-> ""]] : s \in open}
                     /\ nbad' = nbad + Cardinality(open)
-            /\ UNCHANGED <<run, kind, W, A, St, nreq, nontrivial, nack, nfail>>
+            /\ UNCHANGED <<run, kind, W, A, St, nreq, nontrivial, nack, nfail, ntorn>>
        [] OTHER ->   \* "fail" and lines of unknown sources: not judged
             /\ nfail' = nfail + 1
-            /\ UNCHANGED <<run, kind, W, A, St, bad, nbad, nreq, nontrivial, nack>>
+            /\ UNCHANGED <<run, kind, W, A, St, bad, nbad, nreq, nontrivial, nack, ntorn>>
   /\ l' = l + 1
 
 TraceSpec == Init /\ [][Next]_tvars
 
 Export == IF l = Len(Trace) + 1
-          THEN TLCSet(1, bad) /\ TLCSet(2, <<nbad, nreq, nontrivial, nack, nfail>>)
+          THEN TLCSet(1, bad) /\ TLCSet(2, <<nbad, nreq, nontrivial, nack, nfail, ntorn>>)
           ELSE TRUE
 
 Done ==
   /\ TLCGet("stats").diameter - 1 = Len(Trace)
   /\ JsonSerialize(OutFile, [lines |-> Len(Trace), bad |-> SetToSeq(TLCGet(1)), rejected |-> TLCGet(2)[1],
                              requests |-> TLCGet(2)[2], nontrivial |-> TLCGet(2)[3], acks |-> TLCGet(2)[4],
-                             unjudged |-> TLCGet(2)[5]])
+                             unjudged |-> TLCGet(2)[5], torn |-> TLCGet(2)[6]])
 =============================================================================
